@@ -1,39 +1,69 @@
-"""development driver: python -m gocv.dev <ssa.json> <function short name> ..."""
-import sys, time
+"""development driver: python -m gocv.dev [--t ms] [--only substr] [--gen] <function short name> ...
+Regenerates the SSA dump when sources changed (same cache as the checks)."""
+import sys
+import time
 import z3
 from .ssa import Program
 from .spec import ContractDB
 from .exec import Executor
 from . import solve
+from .check import export_ssa
+
 
 def main():
-    prog = Program(sys.argv[1])
+    args = sys.argv[1:]
+    tmo = 3000
+    only = None
+    genonly = False
+    names = []
+    while args:
+        a = args.pop(0)
+        if a == '--t':
+            tmo = int(args.pop(0))
+        elif a == '--only':
+            only = args.pop(0)
+        elif a == '--gen':
+            genonly = True
+        else:
+            names.append(a)
+    path, dg, secs, cached = export_ssa()
+    prog = Program(path)
     db = ContractDB()
     db.load_dir('/repo', prog.module)
     ex = Executor(prog, db)
-    for name in sys.argv[2:]:
+    for name in names:
         fn = prog.find(name)
         if fn is None:
-            print('no such function', name); continue
+            print('no such function', name)
+            continue
         t0 = time.time()
-        obls = ex.verify(fn)
-        print('%s: %d obligations, %d paths, gen %.2fs' % (name, len(obls), ex.npaths, time.time() - t0))
+        obls = ex.verify(fn, safety_props=('C12',))
+        print('%s: %d obligations, %d paths, gen %.2fs' % (name, len(obls), ex.npaths, time.time() - t0), flush=True)
+        if genonly:
+            continue
         agg = {}
-        for o in obls:
-            solve.discharge(ex, o, 10000)
+        sel = [o for o in obls if not only or only in o.name]
+        solve.discharge_all(ex, sel, tmo)
+        for o in sel:
             a = agg.setdefault(o.name, [0, 0, 0.0, []])
             a[0] += 1
             a[1] += (o.status == 'proved')
             a[2] += o.time
             if o.status != 'proved':
                 a[3].append(o)
+                print('    .. %s %s %.1fs' % (o.name, o.status, o.time), flush=True)
+        nbad = 0
         for n, (tot, ok, t, bad) in agg.items():
-            print('  %-70s %d/%d %.2fs %s' % (n, ok, tot, t, '' if not bad else 'FAIL ' + bad[0].status + ' ' + str(bad[0].note) + ' line %s' % bad[0].line))
-            for o in bad[:1]:
-                if o.model:
-                    print('      model:', {k: v for k, v in o.model.items() if k != '_decls'})
-        print('  trusted:', sorted(ex.trusted))
-        if ex.notes: print('  notes:', ex.notes)
+            if bad or t > 2.0:
+                nbad += bool(bad)
+                print('  %-70s %d/%d %.2fs %s' % (n[-90:], ok, tot, t, '' if not bad else 'FAIL ' + bad[0].status + ' ' + str(bad[0].note)[:80] + ' line %s' % bad[0].line))
+                for o in bad[:1]:
+                    if o.model:
+                        print('      model:', str({k: v for k, v in o.model.items() if k != '_decls'})[:300])
+        print('  => %d obligation names, %d failing, solve %.1fs' % (len(agg), nbad, sum(a[2] for a in agg.values())))
+        if ex.notes:
+            print('  notes:', [n[:150] for n in ex.notes[:5]])
+
 
 if __name__ == '__main__':
     sys.setrecursionlimit(100000)
